@@ -260,9 +260,10 @@ def dtype_variants_any(rng):
     rep = {"module": kind, "params": {k_: (np.asarray(v_).tolist() if isinstance(v_, np.ndarray) else v_) for k_, v_ in p.items()}, "with_fuzzy_channel": with_fuzzy, "X": Xi.tolist()}
     try:
         ref = run(Xi.astype(float))
-        for dt in (np.int64, np.uint8, bool):
+        for dt in (np.int64, np.uint8, bool, np.float32, np.float16):
             got = run(Xi.astype(dt))
-            if got[0] != ref[0] or len(got[1]) != len(ref[1]) or any(a.shape != b.shape or not np.allclose(a, b, atol=1e-9, equal_nan=True) for a, b in zip(got[1], ref[1])):
+            tol = 1e-9 if dt not in (np.float32, np.float16) else 1e-2
+            if got[0] != ref[0] or len(got[1]) != len(ref[1]) or any(a.shape != b.shape or not np.allclose(a, b, atol=tol, equal_nan=True) for a, b in zip(got[1], ref[1])):
                 return {"signature": "FusionART/input-dtype", "text": f"rows given as {np.dtype(dt).name}: labels {got[0]}, as float64: {ref[0]}"
                         + ("" if got[0] != ref[0] else "; the stored weights differ (a new category is not initialised from its sample by the module's rule)"),
                         "replay": dict(rep, dtype=np.dtype(dt).name)}
